@@ -138,6 +138,9 @@ func gen(c *common.Ctx, emit func(...string)) {
 		emit("each", strconv.Itoa(n), t)
 		for _, k := range []string{"1", "2"} {
 			emit("peach", k, strconv.Itoa(n), t, sched(r, "l"))
+			if n >= 1 && n <= 2 {
+				emit("peach", k, strconv.Itoa(n), t, sched(r, "ld"))
+			}
 			if n >= 2 && strings.ContainsAny(t, "be") {
 				// targeted schedule: hold every worker after its Done / Release
 				emit("peach", k, strconv.Itoa(n), t, sched(r, "l")+":h600")
@@ -158,7 +161,7 @@ func gen(c *common.Ctx, emit func(...string)) {
 		k := common.Pick(r, bounds)
 		reps := c.Scale(3, 6)
 		for j := 0; j < reps; j++ {
-			sc := sched(r, common.Pick(r, []string{"l", "p"}))
+			sc := sched(r, common.Pick(r, []string{"l", "p", "l", "p", "ld", "pd"}))
 			if k != "inf" && n >= 2 && n <= 12 && pBad > 0 && r.Chance(1, 4) {
 				sc += ":h" + strconv.Itoa(common.Pick(r, []int{300, 800, 2000}))
 			}
@@ -682,10 +685,16 @@ func peachProgram(k string, n int, input string) string {
 	} else if n%2 == 1 {
 		opt = "&num-workers=+inf "
 	}
-	if input == "p" {
-		return fmt.Sprintf("put %s| peach %s{|x| -vcb $x }", inputList(n), opt)
+	// input mode "ld" / "pd": the callback is the builtin itself, not a closure
+	// around it - what it returns is then a plain Go error, not an exception
+	cb := "{|x| -vcb $x }"
+	if strings.HasSuffix(input, "d") {
+		cb = "$-vcb~"
 	}
-	return fmt.Sprintf("peach %s{|x| -vcb $x } [%s]", opt, inputList(n))
+	if strings.HasPrefix(input, "p") {
+		return fmt.Sprintf("put %s| peach %s%s", inputList(n), opt, cb)
+	}
+	return fmt.Sprintf("peach %s%s [%s]", opt, cb, inputList(n))
 }
 
 func eachProgram(n int) string {
